@@ -56,12 +56,14 @@ SigVal(i, alt) ==
     [] i = 8 -> IF alt = 0 THEN V_ua       ELSE V_ua2
 \* slice "viabr": Via values whose FIRST via has no branch parameter (a second via of the same line may have one)
 ViaNoBr(v) == CASE v = 1 -> V_via3 [] v = 2 -> V_via5 [] v = 3 -> V_via7 [] v = 4 -> V_via8
+                \* a branch parameter without a value / with an empty value behind a parameter that has one
+                [] v = 12 -> V_via9 [] v = 13 -> V_via10 [] v = 14 -> V_via11
 \* slice "viaq": Via values whose first via HAS the base branch, next to other parameters in every legal form (quoted
 \* strings with ';' ',' '\"' inside, empty quoted string, white space around ';' and '=', BRANCH in capitals, parameter
 \* names that contain "branch", an IPv6 sent-by, a second via with another branch): same fingerprinted content as the base
                 [] v = 5 -> V_via4q1 [] v = 6 -> V_via4q2 [] v = 7 -> V_via4q3 [] v = 8 -> V_via4q4 [] v = 9 -> V_via4q5
                 [] v = 10 -> V_via4q6 [] v = 11 -> V_via4b
-NoBr(x) == x.viav \in 1..4
+NoBr(x) == x.viav \in (1..4) \cup (12..14)
 SigLine(i, form, alt) ==
   IF alt >= 2 THEN GenHdrLine(SigName(i, form), WS0, WS1, ViaNoBr(alt - 1), WS0, CRLF)
   ELSE IF alt = 0 THEN GenHdrLine(SigName(i, form), WS0, WS1, SigVal(i, 0), WS0, CRLF)
@@ -194,7 +196,7 @@ Expand(part, s) ==
     [] part = "chunk"   -> LET y == [s EXCEPT !.lvl = 2, !.cut = 0]  n == Len(Text(y, Lines(y))) IN
                            { [y EXCEPT !.cut = ct] : ct \in { q \in (s.cut * ChunkBlk + 1)..((s.cut + 1) * ChunkBlk) : q <= n - 1 } }
     [] part = "viabr"   -> \* KNOWN FINDING (see the end of this file): the first via has no branch in all of these
-                           { [C(m, o, f, 0, <<>>, r, 64) EXCEPT !.viav = v] : f \in {0, All(k)}, v \in 1..4,
+                           { [C(m, o, f, 0, <<>>, r, 64) EXCEPT !.viav = v] : f \in {0, All(k)}, v \in (1..4) \cup (12..14),
                                                                              \* a later Via line (with a branch) in EVERY later slot, also
                                                                              \* before the remaining fingerprinted headers have been seen
                                                                              r \in {NoRep} \cup { <<CHOOSE j \in 1..k : o[j] = 7, 0, sl>> :
